@@ -39,7 +39,7 @@ def main():
     rest = [t for t in tables if not any(r_["name"].startswith("__ksymtab_") for r_ in t)]
     c.rng.shuffle(withm)
     c.rng.shuffle(rest)
-    tables = withm[:5000 if T else 160] + rest[:300 if T else 20]
+    tables = withm[:3000 if T else 160] + rest[:200 if T else 20]
     jobs = []
     for i, t in enumerate(tables):
         jobs.append(("asm", "kt%05d" % i, t, "module" if i % 5 == 4 else "strings", ("rel", "exec") + (("dso-bfd",) if T and i % 10 == 0 else ())))
@@ -93,9 +93,8 @@ def main():
         for d in disc:
             c.discard(d)
     c.cov["evaluations"] = len(sev) + len(pev)
-    case_of = lambda ev: symcamp.payload_of(ev)
-    vf.pmap(lambda sh: c.validate("SymtabTrace.tla", "SymtabTrace.cfg", sh, case_of=case_of, env=symcamp.TLC_ENV), symcamp.shards(sev, 400), jobs=3)
-    vf.pmap(lambda sh: c.validate("CorpusTrace.tla", "CorpusTrace.cfg", sh, case_of=case_of, env=symcamp.TLC_ENV), symcamp.shards(pev, 300), jobs=3)
+    symcamp.judge(c, "CorpusTrace.tla", "CorpusTrace.cfg", pev, shard=300)
+    symcamp.judge(c, "SymtabTrace.tla", "SymtabTrace.cfg", sev)
 
     nontrivial = set()
     modes = {}
